@@ -325,7 +325,14 @@ def main():
         sys.exit(do_replay(a.replay))
     if not a.prop:
         ap.error("--prop required")
-    sys.exit(decide(a.prop, a.tier, seed, a.jobs, a.only, a.v))
+    try:
+        rc = decide(a.prop, a.tier, seed, a.jobs, a.only, a.v)
+    except Exception as e:      # a crash of the machinery is never a verdict about the property
+        import traceback
+        traceback.print_exc()
+        print("HARNESS-ERROR: property=%s the runner crashed: %s: %s" % (a.prop, type(e).__name__, e))
+        rc = 3
+    sys.exit(rc)
 
 
 if __name__ == "__main__":
